@@ -17,7 +17,7 @@ use crate::stream::Stream;
 
 use std::sync::Arc;
 
-use tokio::io::AsyncWriteExt;
+use tokio::io::{AsyncWriteExt, BufReader};
 #[cfg(not(humphrey_verif))]
 use tokio::net::{TcpListener, TcpStream, ToSocketAddrs};
 #[cfg(humphrey_verif)]
@@ -467,7 +467,7 @@ where
 ///   received without the `Connection: Keep-Alive` header.
 #[allow(clippy::too_many_arguments)]
 async fn client_handler<State>(
-    mut stream: Stream,
+    stream: Stream,
     subapps: Arc<Vec<SubApp<State>>>,
     default_subapp: Arc<SubApp<State>>,
     error_handler: Arc<ErrorHandler>,
@@ -482,9 +482,13 @@ async fn client_handler<State>(
         return;
     };
 
+    // One buffered reader for the whole connection, so that bytes read ahead of the current
+    //   request (pipelined requests) are kept for the next one instead of being discarded.
+    let mut stream = BufReader::new(stream);
+
     loop {
         // Parses the request from the stream
-        let request = Request::from_stream(&mut stream, addr).await;
+        let request = Request::from_buffered(&mut stream, addr).await;
 
         let cloned_state = state.clone();
 
@@ -493,7 +497,14 @@ async fn client_handler<State>(
             if req.headers.get(&HeaderType::Upgrade) == Some("websocket") {
                 monitor.send(Event::new(EventType::WebsocketConnectionRequested).with_peer(addr));
 
-                call_websocket_handler(req, &subapps, &default_subapp, cloned_state, stream).await;
+                call_websocket_handler(
+                    req,
+                    &subapps,
+                    &default_subapp,
+                    cloned_state,
+                    stream.into_inner(),
+                )
+                .await;
 
                 monitor.send(Event::new(EventType::WebsocketConnectionClosed).with_peer(addr));
                 break;
